@@ -63,6 +63,7 @@ class Console:
         self.timer: dict[int, dict] = {}
         self.errtext: dict[int, str | None] = {}
         self.foreign: dict[str, dict[int, dict]] = {"ac": {}, "zone": {}}
+        self.unreported: set = set()  # zones that are named but (for now) missing from every zone / group status frame
         self.report_foreign = False  # True: the full status answers also list the foreign records, in front of the known ones
         self.reset_state()
         self.rx: list[dict] = []  # every client frame: {seq,t,link,frame,reading}
@@ -217,6 +218,7 @@ class Console:
 
     def f_zone_status(self, pid: int, zones=None) -> bytes:
         ids = sorted(self.zone) if zones is None else list(zones)
+        ids = [i for i in ids if i not in self.unreported]
         if zones is None and self.report_foreign:
             ids = sorted(i for i in self.foreign["zone"] if i not in self.zone) + ids
         if self.gen == 4:
